@@ -1373,6 +1373,91 @@ def d2i_exact_key_entry_first(chk: Check) -> None:
                      "the case that the node has no entry of its own")
 
 
+def d1r_existing_key_is_membership(chk: Check) -> None:
+    """Whether the left Hash "has" a right-hand key is plain membership.
+    The other arm of that test treats the key as *new* and inserts it at a
+    position (ruamel's `insert()`), which for a key that does exist --
+    holding null, say -- writes the old value back behind the new one: the
+    right-hand value is lost and the key jumps ahead of earlier keys."""
+    prog = chk.prog
+    chk.rule("C05-D1r", "the test that routes a right-hand key of "
+             "_merge_dicts to the update arm or to the insert-as-new buffer "
+             "is exactly `key in <left operand>`", floor=1)
+    fi = prog.func("Merger._merge_dicts")
+    lhs = fi.params()[1]
+    arms = [st for st in walk_local(fi.node) if isinstance(st, ast.If) and
+            st.orelse and any(
+                isinstance(c, ast.Call) and src(c.func).endswith(".append")
+                and c.args and isinstance(c.args[0], ast.Tuple)
+                for b in st.orelse for c in ast.walk(b))]
+    if len(arms) != 1:
+        raise AnalysisError("_merge_dicts: existing/new key test not found")
+    t = arms[0].test
+    text = "_merge_dicts: if {}".format(src(t)[:50])
+    if isinstance(t, ast.Compare) and len(t.ops) == 1 and \
+            isinstance(t.ops[0], ast.In) and src(t.comparators[0]) == lhs:
+        chk.ok("C05-D1r", fi, arms[0], text, "membership alone")
+    else:
+        chk.fail("C05-D1r", fi, arms[0], text,
+                 "keys that exist on the left can be routed to the "
+                 "insert-as-new buffer: inserting an existing key re-writes "
+                 "its old value after the new one, so the right-hand value "
+                 "is dropped and the key order changes")
+
+
+def d1s_set_merger_gets_sets(chk: Check) -> None:
+    """`_merge_sets` can *return its right operand* (policy RIGHT).  Every
+    caller therefore hands it a Set: the right-hand Set itself, or a Set
+    built from the right-hand Array / scalar.  Passing the Array through
+    "because the merger only iterates it" makes `sets=right` replace the
+    Set at the merge point by an Array."""
+    prog = chk.prog
+    chk.rule("C05-D1s", "the right operand of every _merge_sets call is a "
+             "Set (annotated / tested as CommentedSet, or built with "
+             "CommentedSet(...))", floor=3)
+    n = 0
+    for fi in prog.funcs_in("yamlpath/merger/merger.py"):
+        for c in walk_local(fi.node):
+            if not (isinstance(c, ast.Call) and
+                    src(c.func).endswith("._merge_sets") and
+                    len(c.args) >= 2):
+                continue
+            n += 1
+            arg = c.args[1]
+            text = "{}: _merge_sets(..., {})".format(fi.short, src(arg)[:30])
+            ok = isinstance(arg, ast.Call) and src(arg.func) == "CommentedSet"
+            if isinstance(arg, ast.Name):
+                ann = next((a.annotation for a in fi.node.args.args
+                            if a.arg == arg.id and a.annotation is not None),
+                           None)
+                if ann is not None and src(ann) == "CommentedSet":
+                    ok = True
+                if any(isinstance(a, (ast.Assign, ast.AnnAssign)) and
+                       src(a.targets[0] if isinstance(a, ast.Assign)
+                           else a.target) == arg.id and
+                       isinstance(a.value, ast.Call) and
+                       src(a.value.func) == "CommentedSet"
+                       for a in walk_local(fi.node)):
+                    ok = True
+                if any(f.kind == "cond" and f.pol and
+                       isinstance(f.expr, ast.Call) and
+                       src(f.expr.func) == "isinstance" and
+                       src(f.expr.args[0]) == arg.id and
+                       "CommentedSet" in src(f.expr.args[1])
+                       for f in facts_at(c)):
+                    ok = True
+            if ok:
+                chk.ok("C05-D1s", fi, c, text, "a Set")
+            else:
+                chk.fail("C05-D1s", fi, c, text,
+                         "`{}` is not known to be a Set: under sets=right "
+                         "the merger returns it, and the Set at the merge "
+                         "point becomes whatever it is (an Array)".format(
+                             src(arg)))
+    if n < 3:
+        raise AnalysisError("_merge_sets calls: {}".format(n))
+
+
 def d1q_rekeying_keeps_position(chk: Check) -> None:
     """When a key of an ordered mapping is replaced by another object (the
     node of the surviving Anchor takes the place of the losing one), the
@@ -1430,6 +1515,8 @@ def run(chk: Check) -> None:
     d1q_rekeying_keeps_position(chk)
     d1p_destination_kind_is_checked(chk)
     d2i_exact_key_entry_first(chk)
+    d1r_existing_key_is_membership(chk)
+    d1s_set_merger_gets_sets(chk)
     d2h_option_names_fold_case(chk)
     from rules.shared import effects_not_shortcircuited_rule
     effects_not_shortcircuited_rule(
